@@ -202,14 +202,18 @@ CHECKS["C19"] = {
                    "objects of K's own rollout (resolved by exact names and owner references), no panic, every rollout reaches its terminal state, and for timing-insensitive histories the "
                    "normalised final state of each rollout equals that of its solo run. (b) The same scenarios with reconciles executed by 4 worker goroutines (API calls serialised by a lock, "
                    "as an API server serialises writes) in a binary built with -race, plus a 16-goroutine hammer on grace timers, creation expectations and the Lua runtime: any race report, panic "
-                   "or non-termination is a violation. Go-scheduler interleavings are explored only by chance; a race is reproducible only statistically."),
+                   "or non-termination is a violation. Go-scheduler interleavings are explored only by chance; a race is reproducible only statistically. (c) Non-interference with RUNNING grace timers at the level of "
+                   "trafficrouting.Manager: two tenants in different namespaces with identical object names (stable Service, canary Service, Ingress) and different grace periods call PatchStableService / "
+                   "RestoreStableService / RemoveCanaryService / RestoreGateway in a generated interleaving with clock ticks (grace.ShiftForVerif); everything tenant A observes (retry/error of each call, its objects "
+                   "afterwards) must equal the run from which tenant B's calls are deleted."),
     "level_note": E1_TRUST + " In (b) environment and user steps run in serial phases between the parallel reconcile phases so that the harness itself has no shared unsynchronised state.",
     "rule": ("rapid: 2-4 scenarios from the shared E1 generator placed on {ns1/demo, ns1/demo-a, ns2/demo, ns2/demo-a}; histories of up to 200 actions with a drawn target rollout per user action; half of the "
-             "cases contain only release + approvals (these get the solo differential). Non-trivial: more than 10 generated actions beyond the releases (a) / >= 2 rollouts (b). Distinct by scenarios + user action sequence."),
-    "assumptions": E1_ASSUMPTIONS + ["Grace periods are 0 in this time mode, so cross-talk through grace-timer keys is only reachable in the -race hammer, not as a functional difference."],
+             "cases contain only release + approvals (these get the solo differential). Non-trivial: more than 10 generated actions beyond the releases (a) / >= 2 rollouts (b) / tenant A waited on a grace timer at least once while tenant B made calls (c). Distinct by scenarios + user action sequence."),
+    "assumptions": E1_ASSUMPTIONS + ["Grace periods are 0 in the closed-loop time mode, so cross-talk through grace-timer keys is not reachable there; it is decided by (c) on trafficrouting.Manager alone, with the controller-runtime fake client and explicit object UIDs (the real API server assigns unique UIDs)."],
     "subchecks": [
         {"name": "c19-interleaved", "pkg": "p19", "test": "TestC19Interleaved", "quick": rp(192, 16, timeout=900, shrinktime="30s"), "thorough": rp(4800, 16, timeout=3000, shrinktime="300s")},
         {"name": "c19-concurrent-race", "pkg": "p19", "test": "TestC19ConcurrentRace", "race": True, "quick": rp(32, 16, timeout=900, shrinktime="30s"), "thorough": rp(640, 16, timeout=3000, shrinktime="120s")},
         {"name": "c19-helper-hammer", "pkg": "p19", "test": "TestC19HelperHammer", "race": True, "mode": "plain", "quick": rp(1, 4, timeout=300), "thorough": rp(1, 16, timeout=300)},
+        {"name": "c19-manager-isolation", "pkg": "p19m", "test": "TestC19ManagerIsolation", "quick": rp(8000, 8, timeout=600, shrinktime="30s"), "thorough": rp(160000, 16, timeout=3000, shrinktime="120s")},
     ],
 }
